@@ -725,7 +725,7 @@ def SER(name, nodekind, fn, top=None, size=False, extra_defs=(), must=2, covers=
       loops="loops/serialization.json" if loops else None,
       loop_fingerprint={"cbor_serialize_array": 1, "cbor_serialize_map": 1, "cbor_serialize_string": 1,
                         "cbor_serialize_bytestring": 1, "cbor_serialized_size": 4} if loops else None,
-      must_exist=[r"%s\.postcondition\.%d" % (fn, must)], min_covers=covers, cost=60, timeout=900, object_bits=10, **kw)
+      must_exist=[r"%s\.postcondition\.%d" % (fn, must)], min_covers=covers, cost=60, timeout=1800, object_bits=10, **kw)
 
 
 P(name="ser_encoded_header_size", props={"C07": FUNC + FRAME, "C20": FUNC, "C03": FUNC, "C01": SAFETY}, lib=SERLIB, stubs=SER_STUBS,
